@@ -4,7 +4,7 @@
 import BumpverVerif.Driver.Common
 import BumpverVerif.Model.V2Patterns
 import BumpverVerif.Model.V2Version
-import BumpverVerif.Model.PatAst
+import BumpverVerif.Model.PatWf
 open Lean
 namespace BV.Drv
 
@@ -89,6 +89,7 @@ def handleV2 : Handler := fun op j =>
     -- does the structural (tree) reading of the pattern agree with the string pipeline on this pattern and record?
     let p ← getStr j "pattern"
     let vi ← getVinfo j "vinfo"
+    let today ← (match j.getObjVal? "today" with | .ok _ => getDate j "today" | .error _ => pure (2026, 9, 29))
     pure (match tokenize p with
       | none => Json.mkObj [("tokenized", Json.bool false)]
       | some t =>
@@ -98,7 +99,22 @@ def handleV2 : Handler := fun op j =>
         let req := match formatVersion vi p with
           | .ok s => s == t.render vi
           | .error _ => false
-        Json.mkObj [("tokenized", Json.bool true), ("compile_eq", Json.bool ceq), ("render_eq", Json.bool req)])
+        -- is this (pattern, record) inside the domain of the round-trip theorems (Props/C02.lean)?  If it is, the
+        -- theorem's conclusion is also EVALUATED here (a test of the statement, not part of the proof).
+        let inDom := t.wfTop && t.vok vi && tagCoh vi
+        let anchored := t.calAnchored
+        let thm := match t.compile with
+          | some r =>
+            (match reMatch r (t.render vi) with
+             | some m => m.start == 0 && m.stop == (t.render vi).length && m.caps == (t.caps vi).reverse
+             | none => false) &&
+            (match parseWithRe r (t.render vi) today with
+             | .ok v' => t.agree vi v' && t.render v' == t.render vi
+             | .error _ => false)
+          | none => false
+        Json.mkObj [("tokenized", Json.bool true), ("compile_eq", Json.bool ceq), ("render_eq", Json.bool req),
+                    ("wf", Json.bool t.wfTop), ("in_domain", Json.bool inDom), ("anchored", Json.bool anchored),
+                    ("theorem_instance", Json.bool thm)])
   | "parse" => some do
     let v ← getStr j "version"
     let p ← getStr j "pattern"
